@@ -14,7 +14,8 @@ LineSeqs == << <<>>,
                <<Fb(1, "m1"), Other("unknownName"), Fb(1, "m2")>>,
                <<Other("noColon"), Fb(N, "last"), Other("blank"), Other("noSpace")>>,
                <<Other("blank"), Other("unknownName"), Other("noColon")>>,
-               <<Fb(N, "x"), Fb(1, "y"), Fb(N, "z"), Other("noSpace")>> >>
+               <<Fb(N, "x"), Fb(1, "y"), Fb(N, "z"), Other("noSpace")>>,
+               <<Other("noColon"), Other("long"), Fb(1, "after-long"), Other("unknownName")>> >>   \* a very long diagnostic line
 LinesOf(s) == LineSeqs[((s.die + s.closeAt + Cardinality({c \in Cases : s.ans[c] = "pass"})) % Len(LineSeqs)) + 1]
 
 RECURSIVE LastFb(_, _, _)
